@@ -947,7 +947,11 @@ RULE = ('for each of the 27 public functions the property lists (slope aspect cu
         'small-spread rasters (|mean|/std 1e2..1e5) with planted clusters; perlin unequal freq, seeds incl. 0; '
         'generate_terrain seeds incl. 0, zfactor, x_range/y_range/full_extent with unequal x/y fractions. The quick tier '
         'draws the dtype from a seed-dependent subset (3 integer widths + float32/64, sometimes float16); thorough and '
-        'search() use all. A second stream builds 2-3 lazy results of a parametrised function on the SAME Dask rasters with '
+        'search() use all. A last stream uses float32 / float16 rasters on decimal grids (multiples of 0.1, 0.01, 0.05, 0.3, 0.7) '
+        'whose cells sit exactly at and one ulp around the cut points the NumPy path derives in the raster dtype '
+        '(equal_interval k in 2..10), decimal cell sizes for slope/aspect/curvature/hillshade, true_color/hotspots on '
+        'decimal grids, fractional perlin freq and generate_terrain ranges/full_extent with unequal x/y fractions, so that '
+        'a global scalar derived in another precision on one backend flips a class. A second stream builds 2-3 lazy results of a parametrised function on the SAME Dask rasters with '
         'different parameter values (e.g. reclassify with the same bins and different new_values) and computes them in ONE '
         'dask.compute. Correspondence extras: hillshade with the sun at the zenith vs the gradient model (|diff| <= 3e-6); '
         'perlin / generate_terrain with the noise kernel replaced by the x- resp. y-coordinate vs the ramp model, whole and '
@@ -1788,6 +1792,91 @@ def probe_cases(rng, quick):
     return out
 
 
+# ------------------------------------------------------------------ global scalars derived in the raster's precision
+def _grid_vals(dt, step, lo, n):
+    """n values lo*step, (lo+1)*step, ... rounded to dtype dt, as Python floats (exactly representable in dt)"""
+    t = np.dtype(dt).type
+    return [float(t((lo + i) * step)) for i in range(n)]
+
+
+def gen_threshold_case(rng, fn):
+    """rasters whose values sit exactly at / one ulp around the thresholds the NumPy path derives from global scalars
+    (min, max, cut points, cell size, coordinate ranges) in the raster's own precision: decimal grids (multiples of 0.1,
+    0.01, ...) in float32 / float16.  A wrapper that derives such a scalar in another precision flips a class."""
+    if fn == 'equal_interval':
+        dt = 'float32' if rng.random() < 0.8 else 'float16'
+        k = rng.randint(2, 10)
+        step = rng.choice([0.1, 0.1, 0.01, 0.05, 0.3, 0.7])
+        lo = rng.choice([0, 0, 1, 3, -4])
+        m = k * rng.randint(1, 3) + 1                     # max - min is a multiple of k*step: the cuts fall on the grid
+        grid = _grid_vals(dt, step, lo, m)
+        t = np.dtype(dt).type
+        mn, mx = t(min(grid)), t(max(grid))
+        with np.errstate(all='ignore'):
+            width = (mx - mn) * 1.0 / k                   # as _run_equal_interval computes it, in the raster dtype
+            cuts = np.arange(mn + width, mx + width, width)[:k] if width > 0 else np.array([], dtype=dt)
+        extra = []
+        for c in cuts[:-1]:
+            for v in (c, np.nextafter(c, t(np.inf)), np.nextafter(c, t(-np.inf))):
+                if mn <= v <= mx:
+                    extra.append(float(v))
+        vals = grid + extra
+        rng.shuffle(vals)
+        W = rng.randint(2, 7)
+        H = -(-len(vals) // W)
+        vals = vals + [rng.choice(grid) for _ in range(H * W - len(vals))]
+        c = gen_case(rng, fn, H, W)
+        c['dtype'] = dt
+        c['k'] = k
+        c['data'] = [vals[r * W:(r + 1) * W] for r in range(H)]
+        if rng.random() < 0.3:
+            c['data'][rng.randrange(H)][rng.randrange(W)] = float('nan')
+        c['chunks'] = gen_chunks(rng, H, W, c['style'])
+        c['kind'] = 'decimal-grid'
+        return c
+    H, W = rng.randint(3, 8), rng.randint(3, 8)
+    c = gen_case(rng, fn, H, W)
+    c['kind'] = 'decimal-grid'
+    if fn in ('perlin', 'generate_terrain'):
+        c['dtype'] = 'float32'
+        if fn == 'perlin':
+            c['freq'] = [rng.choice([0.1, 0.3, 2.5, 1]), rng.choice([0.7, 0.01, 3, 1.1])]
+        else:
+            terrain_params(rng, c, asym=True)
+            xr_, yr_, fe = rng.choice([((0.1, 0.3), (0.2, 0.9), (0.0, 0.0, 1.0, 0.7 + 0.3)),
+                                       ((0.1, 0.4), (0.35, 0.7), (0.0, 0.1, 0.9, 0.8)),
+                                       ((10.1, 10.3), (0.0, 0.01), (10.0, 0.0, 10.7, 0.03))])
+            c['x_range'], c['y_range'], c['full_extent'] = list(xr_), list(yr_), list(fe)
+        return c
+    dt = 'float32' if rng.random() < 0.8 else 'float16'
+    c['dtype'] = dt
+    step = rng.choice([0.1, 0.01, 0.3])
+    g = _grid_vals(dt, step, rng.choice([0, 2, -3]), 40)
+    for key in ('data', 'data2', 'data3'):
+        if key in c:
+            c[key] = [[rng.choice(g) for _ in range(W)] for _ in range(H)]
+    c['cellsize'] = list(rng.choice([(0.1, 0.1), (0.1, 0.3), (0.01, 0.07), (0.3, 0.1)]))     # decimal cell sizes
+    c['res_attr'] = rng.random() < 0.5
+    if 'kernel' in c:
+        c['kernel'] = gen_kernel(rng, H, W, binary=(fn != 'convolution_2d'), force=(3, 3))
+    c['chunks'] = gen_chunks(rng, H, W, c['style'])
+    for ck in ('chunks2', 'chunks3'):
+        if ck in c:
+            c[ck] = gen_chunks(rng, H, W, 'random')
+    return c
+
+
+def threshold_stream(ctx, rng, quick):
+    plan = [('equal_interval', 14 if quick else 150), ('slope', 1 if quick else 10), ('curvature', 1 if quick else 10),
+            ('hillshade', 1 if quick else 10), ('aspect', 1 if quick else 10), ('true_color', 2 if quick else 20),
+            ('hotspots', 1 if quick else 10), ('perlin', 1 if quick else 10), ('generate_terrain', 1 if quick else 6)]
+    for fn, n in plan:
+        for _ in range(n):
+            c = gen_threshold_case(rng, fn)
+            ctx.count('stream/decimal-grid/%s/%s' % (fn, c['dtype']))
+            explore(ctx, c, None)
+
+
 # ------------------------------------------------------------------ several lazy results computed together
 PARAM_FNS = ['reclassify', 'binary', 'equal_interval', 'hillshade', 'mean', 'convolution_2d', 'apply', 'focal_stats',
              'hotspots', 'savi', 'true_color', 'perlin', 'generate_terrain']
@@ -2050,6 +2139,8 @@ def run(ctx, heavy=False):
     ctx.exhaustive = False
     check_model(ctx, pending)
     run_probes(ctx, probe_cases(rng, quick))
+    # 4. (appended last) decimal-grid rasters at the thresholds derived from global scalars in the raster's precision
+    threshold_stream(ctx, rng, quick)
 
 
 def search(ctx):
@@ -2076,6 +2167,8 @@ def search(ctx):
                     explore_together(ctx, gen_together(rng, fn))
             if rounds == 1:
                 explore_together(ctx, gen_together(rng, 'generate_terrain'))
+            for _ in range(10):
+                explore(ctx, gen_threshold_case(rng, 'equal_interval'), None)
             if len([v for v in ctx.violations if v['kind'] == 'oracle']) > n0:
                 break
     finally:
